@@ -21,19 +21,28 @@
 (* This is a thin use of TLA+: the specification is the two-line oracle    *)
 (* plus the corruption enumerator.                                         *)
 (***************************************************************************)
-EXTENDS Naturals, FiniteSets, TLC, Json
+EXTENDS Integers, Sequences, FiniteSets, TLC, Json
 
 Funcs == {"f1", "f2"}
 Datums == {"d1", "d2"}
 Syms == Funcs \cup Datums
 Size == 16                                   \* every symbol covers 16 bytes
 
-SiteKinds == {"call", "lea", "load", "gotslot", "absptr"}
+SiteKinds == {"call", "lea", "load", "gotslot", "gotload", "absptr"}
+(* gotslot: the CONTENT of a GOT slot (an address);  gotload: the displacement of a GOT-indirect instruction
+   (push/mov sym@GOTPCREL), which designates a GOT SLOT.  A GOT slot is an 8-byte cell: an address in the
+   middle of a cell designates no slot - and so no symbol - at all. *)
 (* which class of symbol a site of each kind can originally designate *)
 OrigClasses(k) == CASE k = "call" -> {"function"}
                     [] k = "load" -> {"datum"}
                     [] OTHER -> {"function", "datum"}
 Redirs == {"none", "other-function", "other-datum", "same+8"}
+(* redirections of a GOT-load site: the same slot shifted by k bytes (1..7: into the middle of the cell,
+   -1..-7: into the tail of the previous cell), and the next cell *)
+GotShifts == (1..8) \cup {-k : k \in 1..7}
+ShiftName(k) == IF k > 0 THEN <<"slot+", k>> ELSE <<"slot-", -k>>
+RedirsOf(kind) == IF kind = "gotload" THEN {<<"none">>} \cup {ShiftName(k) : k \in GotShifts}
+                  ELSE {<<r>> : r \in Redirs}
 
 (* two layouts of the same program (the two linkers place things differently) *)
 LayoutA == [s \in Syms |-> CASE s = "f1" -> 4096 [] s = "f2" -> 4112 [] s = "d1" -> 8192 [] s = "d2" -> 8208]
@@ -41,42 +50,65 @@ LayoutB == [s \in Syms |-> CASE s = "f1" -> 65552 [] s = "f2" -> 65536 [] s = "d
 Layouts == {LayoutA, LayoutB}
 
 OrigTarget(class) == IF class = "function" THEN <<"f1", 0>> ELSE <<"d1", 0>>
-Redirect(t, r) == CASE r = "none" -> t
-                    [] r = "other-function" -> <<IF t[1] = "f1" THEN "f2" ELSE "f1", 0>>
-                    [] r = "other-datum" -> <<IF t[1] = "d1" THEN "d2" ELSE "d1", 0>>
-                    [] r = "same+8" -> <<t[1], t[2] + 8>>
+Redirect(t, r) == CASE r = <<"none">> -> t
+                    [] r = <<"other-function">> -> <<IF t[1] = "f1" THEN "f2" ELSE "f1", 0>>
+                    [] r = <<"other-datum">> -> <<IF t[1] = "d1" THEN "d2" ELSE "d1", 0>>
+                    [] r = <<"same+8">> -> <<t[1], t[2] + 8>>
+                    [] Len(r) = 2 /\ r[1] = "slot+" -> <<t[1], t[2] + r[2]>>
+                    [] Len(r) = 2 /\ r[1] = "slot-" -> <<t[1], t[2] - r[2]>>
+
+(* the GOT of each layout: one 8-byte cell per symbol, in a different order in the two binaries *)
+GotAddr(L, s) == IF L = LayoutA
+                 THEN 12288 + 8 * (CASE s = "f1" -> 0 [] s = "f2" -> 1 [] s = "d1" -> 2 [] s = "d2" -> 3)
+                 ELSE 196608 + 8 * (CASE s = "d2" -> 0 [] s = "d1" -> 1 [] s = "f2" -> 2 [] s = "f1" -> 3)
 
 (* the concrete value a linker with layout L writes for target t, and its inverse *)
-Value(L, t) == L[t[1]] + t[2]
-Symbolic(L, v) == LET S == {s \in Syms : L[s] <= v /\ v < L[s] + Size} IN
-                  IF S = {} THEN <<"?", v>> ELSE LET s == CHOOSE s \in S : TRUE IN <<s, v - L[s]>>
+Value(L, k, t) == IF k = "gotload" THEN GotAddr(L, t[1]) + t[2] ELSE L[t[1]] + t[2]
+Symbolic(L, k, v) ==
+    IF k = "gotload" THEN
+        LET S == {s \in Syms : GotAddr(L, s) = v} IN            \* exactly a cell, or nothing
+        IF S = {} THEN <<"?", v>> ELSE <<CHOOSE s \in S : TRUE, 0>>
+    ELSE LET S == {s \in Syms : L[s] <= v /\ v < L[s] + Size} IN
+         IF S = {} THEN <<"?", v>> ELSE LET s == CHOOSE s \in S : TRUE IN <<s, v - L[s]>>
 
 (* a program has one site of the kind under test plus the other four, all designating originals *)
 Targets(kind, class, redir) ==
     [k \in SiteKinds |-> IF k = kind THEN Redirect(OrigTarget(class), redir)
                          ELSE OrigTarget(CHOOSE c \in OrigClasses(k) : TRUE)]
-Bin(L, tg) == [k \in SiteKinds |-> Value(L, tg[k])]
+Bin(L, tg) == [k \in SiteKinds |-> Value(L, k, tg[k])]
 
-Report(a, La, b, Lb) == {k \in SiteKinds : Symbolic(La, a[k]) # Symbolic(Lb, b[k])}
+Report(a, La, b, Lb) == {k \in SiteKinds : Symbolic(La, k, a[k]) # Symbolic(Lb, k, b[k])}
 
 VARIABLE case
-Cases == {[kind |-> k, orig |-> c, redir |-> r, lt |-> lt, lr |-> lr] :
-             k \in SiteKinds, c \in {"function", "datum"}, r \in Redirs, lt \in {"A", "B"}, lr \in {"A", "B"}}
-Init == case \in {c \in Cases : c.orig \in OrigClasses(c.kind)}
+Cases == UNION {{[kind |-> k, orig |-> c, redir |-> r, lt |-> lt, lr |-> lr] :
+                   c \in OrigClasses(k), r \in RedirsOf(k), lt \in {"A", "B"}, lr \in {"A", "B"}} : k \in SiteKinds}
+Init == case \in Cases
 Next == UNCHANGED case
 Spec == Init /\ [][Next]_case
 
 Lay(n) == IF n = "A" THEN LayoutA ELSE LayoutB
 Observed == Report(Bin(Lay(case.lt), Targets(case.kind, case.orig, case.redir)), Lay(case.lt),
-                   Bin(Lay(case.lr), Targets(case.kind, case.orig, "none")), Lay(case.lr))
+                   Bin(Lay(case.lr), Targets(case.kind, case.orig, <<"none">>)), Lay(case.lr))
 
 (* the oracle is exact and independent of the two layouts *)
-OracleExact == Observed = (IF case.redir = "none" THEN {} ELSE {case.kind})
+OracleExact == Observed = (IF case.redir = <<"none">> THEN {} ELSE {case.kind})
 (* a byte-wise comparison would NOT be a correct oracle: it alarms on equal programs (anti-vacuity) *)
-BytewiseQuiet == (case.redir = "none") =>
-                    Bin(Lay(case.lt), Targets(case.kind, case.orig, "none")) = Bin(Lay(case.lr), Targets(case.kind, case.orig, "none"))
+BytewiseQuiet == (case.redir = <<"none">>) =>
+                    Bin(Lay(case.lt), Targets(case.kind, case.orig, <<"none">>)) = Bin(Lay(case.lr), Targets(case.kind, case.orig, <<"none">>))
+(* an oracle that rounds a GOT address down to its cell (anti-vacuity, must be violated: Diff_gotround.cfg) *)
+RoundedSymbolic(L, k, v) == IF k = "gotload" THEN Symbolic(L, k, v - (v % 8)) ELSE Symbolic(L, k, v)
+RoundedOracleExact ==
+    LET a == Bin(Lay(case.lt), Targets(case.kind, case.orig, case.redir))
+        b == Bin(Lay(case.lr), Targets(case.kind, case.orig, <<"none">>))
+        rep == {k \in SiteKinds : RoundedSymbolic(Lay(case.lt), k, a[k]) # RoundedSymbolic(Lay(case.lr), k, b[k])}
+    IN rep = (IF case.redir = <<"none">> THEN {} ELSE {case.kind})
 
 Emit == (case.lt = "A" /\ case.lr = "B") =>
-            PrintT(<<"REPLAY", ToJson([kind |-> case.kind, orig |-> case.orig, redir |-> case.redir,
+            PrintT(<<"REPLAY", ToJson([kind |-> case.kind, orig |-> case.orig,
+                                       redir |-> IF Len(case.redir) = 1 THEN case.redir[1]
+                                                 ELSE IF case.redir[1] = "slot+" THEN "slot+" \o ToString(case.redir[2])
+                                                 ELSE "slot-" \o ToString(case.redir[2]),
+                                       shift |-> IF Len(case.redir) = 1 THEN 0
+                                                 ELSE IF case.redir[1] = "slot+" THEN case.redir[2] ELSE 0 - case.redir[2],
                                        expect_problem |-> (Observed # {})])>>)
 =============================================================================
